@@ -8,8 +8,11 @@ import (
 )
 
 func drawFns(c *rules.Ctx, ob *core.Obligation) (fixed, all, recv, allAcct *ssa.Function) {
-	return c.Fn(ob, relInterp, "(*programState).trySendingUpTo"), c.Fn(ob, relInterp, "(*programState).sendAll"),
-		c.Fn(ob, relInterp, "(*programState).receiveFrom"), c.Fn(ob, relInterp, "(*programState).sendAllToAccount")
+	ir := c.IRoles(ob)
+	if ir == nil {
+		return nil, nil, nil, nil
+	}
+	return ir.FixedDraw, ir.SendAll, ir.Receive, ir.SendAllAccount
 }
 
 func obBalanceOrigin(c *rules.Ctx, id string, r *rules.Roles) {
@@ -29,8 +32,11 @@ func obApplyPostings(c *rules.Ctx, id string, r *rules.Roles) {
 
 func obGate(c *rules.Ctx, id string, r *rules.Roles) {
 	ob := c.R.Ob(id, "ctrl/gate", "the unbounded gate is opened only by @world and `allowing unbounded overdraft`; send-all rejects both before pushing", 5)
-	pre := c.Fn(ob, relInterp, "(*programState).findBalancesQueries")
-	batch := c.Fn(ob, relInterp, "(*programState).batchQuery")
+	ir := c.IRoles(ob)
+	if ir == nil {
+		return
+	}
+	pre, batch := ir.Prefetch, ir.Batch
 	fixed, all, _, allAcct := drawFns(c, ob)
 	c.PrefetchAgreesWithDraw(ob, pre, batch, []*ssa.Function{fixed, all}, balanceReaders(c))
 	c.SendAllGate(ob, r, allAcct)
